@@ -871,7 +871,10 @@ class ClientSession:
                                 or _TARGET_FORBIDDEN_CTL_RE.search(r_host)
                             ):
                                 raise ValueError("control character in host")
-                        except ValueError as e:
+                        except (ValueError, IndexError) as e:
+                            # yarl raises IndexError for an authority with an
+                            # empty host after a bracketed userinfo
+                            # (``http://[::1]@/``).
                             if req._body is not None:
                                 await req._body.close()
                             resp.close()
